@@ -25,7 +25,7 @@ class Crash(BaseException):
     """The simulated process died here."""
 
 
-_TOK = re.compile(r"\s*(?:(\?)|([A-Za-z_][A-Za-z_0-9]*)|(\d+)|(>=|<=|<>|!=|=|<|>|\(|\)|,|\*))")
+_TOK = re.compile(r"\s*(?:(\?)|([A-Za-z_][A-Za-z_0-9]*)|(\d+)|(>=|<=|<>|!=|=|<|>|\(|\)|,|\*|\+|-))")
 
 
 def _toks(sql):
@@ -531,14 +531,7 @@ class Cursor:
         while True:
             c = self.col(tb)
             self.eat("=")
-            k = self.eat()
-            if k[0] == "?":
-                v = self._coerce(tb, c, self.param())
-            elif k[0] == "num":
-                v = k[1]
-            else:
-                raise ModelGap("SET operand")
-            sets.append((c, v))
+            sets.append((c, self._set_expr(tb, c)))
             if self.peek()[1] == ",":
                 self.eat()
                 continue
@@ -546,10 +539,56 @@ class Cursor:
         conds = self._where(tb)
         for r in tb.rows:
             if self._match(r, conds):
-                for c, v in sets:
+                vals = [(c, f(r)) for c, f in sets]  # right-hand sides see the row before the update
+                for c, v in vals:
                     if (tb.pk and c in tb.pk) or (tb.uniq and c in tb.uniq):
                         raise ModelGap("UPDATE of a key column")
                     r[c] = v
+
+    def _set_operand(self, tb, c):
+        """`?` | number | column | MAX(e, e) | MIN(e, e)  ->  function of the row (integers only)."""
+        k = self.eat()
+        if k[0] == "?":
+            v = self._coerce(tb, c, self.param())
+            return lambda r: v
+        if k[0] == "num":
+            return lambda r: k[1]
+        if k[0] == "id" and k[1].upper() in ("MAX", "MIN") and self.peek()[1] == "(":
+            big = k[1].upper() == "MAX"
+            self.eat("(")
+            a = self._set_expr(tb, c)
+            self.eat(",")
+            b = self._set_expr(tb, c)
+            self.eat(")")
+
+            def pick(r):
+                x, y = a(r), b(r)
+                if x is None or y is None:
+                    return None  # scalar max() / min() return NULL if any argument is NULL
+                if type(x) is str or type(y) is str:
+                    raise ModelGap("MAX / MIN over text")
+                return (x if x >= y else y) if big else (x if x <= y else y)
+            return pick
+        if k[0] == "id" and k[1] in tb.cols:
+            name = k[1]
+            return lambda r: r[name]
+        raise ModelGap("SET operand")
+
+    def _set_expr(self, tb, c):
+        f = self._set_operand(tb, c)
+        while self.peek()[1] in ("+", "-"):
+            op = self.eat()[1]
+            g = self._set_operand(tb, c)
+
+            def arith(r, f=f, g=g, op=op):
+                x, y = f(r), g(r)
+                if x is None or y is None:
+                    return None
+                if type(x) is str or type(y) is str:
+                    raise ModelGap("arithmetic over text")
+                return x + y if op == "+" else x - y
+            f = arith
+        return f
 
     def _delete(self):
         self.eat("DELETE")
